@@ -75,6 +75,11 @@ def gather_states(tier, run, budget=None, extra_models=True):
             if m not in seen:
                 res.append((m, tr, 'annotation-types', ('annotations', 'imports', 'ns', 'routes', 'unions', 'aliases'), 3))
         run.bounds['annotation_type_models'] = len(ann)
+        cni = profiles.cross_namespace_inheritance_models()
+        for m, tr in cni:
+            if m not in seen:
+                res.append((m, tr, 'cross-namespace-inheritance', ('aliases', 'imports', 'inherit', 'uinherit', 'ns', 'routes', 'unions', 'wrappers', 'defaults'), 3))
+        run.bounds['cross_namespace_inheritance_models'] = len(cni)
     return res
 
 
